@@ -94,7 +94,57 @@ func c13Gen(tier string, seed int64) []fw.Case {
 			}
 		}
 	}
+	for i := 0; i < tierPick(tier, 16, 128); i++ {
+		d := c13Desc{Mode: i % 3, Status: -1}
+		cases = append(cases, fw.Case{Name: "concurrent-dials", Desc: d, Run: func(r *fw.R) { c13Concurrent(r, d) }})
+	}
 	return cases
+}
+
+// c13Concurrent overlaps many Dial calls: every attempt must still send its own fresh, well formed key.
+func c13Concurrent(r *fw.R, d c13Desc) {
+	r.SetSample(map[string]any{"kind": "concurrent dials", "goroutines": 24, "dials_each": 400})
+	var mu sync.Mutex
+	seen := map[string]int{}
+	bad := ""
+	rt := c13RT{func(req *http.Request) (*http.Response, error) {
+		k := req.Header.Get("Sec-WebSocket-Key")
+		raw, err := base64.StdEncoding.DecodeString(k)
+		mu.Lock()
+		seen[k]++
+		if (err != nil || len(raw) != 16) && bad == "" {
+			bad = k
+		}
+		mu.Unlock()
+		return nil, fmt.Errorf("refused by the harness")
+	}}
+	var wg sync.WaitGroup
+	const G, N = 24, 400
+	for g := 0; g < G; g++ {
+		wg.Add(1)
+		go func() {
+			defer wg.Done()
+			for i := 0; i < N; i++ {
+				websocket.Dial(context.Background(), "ws://dial.test/", &websocket.DialOptions{HTTPClient: &http.Client{Transport: rt}, CompressionMode: websocket.CompressionMode(d.Mode)})
+			}
+		}()
+	}
+	wg.Wait()
+	r.Count("dials", G*N)
+	r.Count("requests_inspected", G*N)
+	r.Key("concurrent-dials/mode=%d", d.Mode)
+	if bad != "" {
+		r.Violate("C13/request/key-format", fmt.Sprintf("with %d goroutines dialling at once a request carried the key %q, which does not decode to 16 bytes", G, bad), "")
+	}
+	for k, n := range seen {
+		if n > 1 {
+			r.Violate("C13/request/key-reused", fmt.Sprintf("with %d goroutines dialling at once the key %q was sent by %d different attempts", G, k, n), "")
+			break
+		}
+	}
+	if len(seen) != G*N && bad == "" {
+		r.Count("concurrent_dial_key_duplicates", int64(G*N-len(seen)))
+	}
 }
 
 var (
